@@ -977,6 +977,7 @@ class Walker:
             if kind in ("fall", "continue"):
                 self.emit("loopend", s, rs, loop=lp)
             elif kind == "break":
+                self.emit("loopbreak", s, rs, loop=lp)
                 x = rs
                 x.loops = st.loops
                 outs.append((x, "fall", None))
@@ -987,9 +988,14 @@ class Walker:
             g = fn(self, entry_env, after.env)
             if g is not None:
                 after.facts.append(g)
-        if test is not None and not any(k == "break" for _, k, _ in res):
+        if test is not None:
             c = self.cond(test, after)
-            self.assume(after, c_not(c))
+            if c == ("true",):
+                after.dead = True        # `while True`: never left through its test
+            elif not any(k == "break" for _, k, _ in res):
+                self.assume(after, c_not(c))
+        if after.dead:
+            return outs        # `while True`: the loop is left only through break / return / raise
         if orelse:
             outs.extend(self.block(orelse, after))
         else:
@@ -1064,6 +1070,11 @@ class Walker:
 
     def _assume(self, st, c):
         k = c[0]
+        if k == "false":
+            st.dead = True
+            return
+        if k == "true":
+            return
         if k == "le":
             l = c[1]
             if l.is_const():
